@@ -104,3 +104,5 @@ func init() {
 	prop("C15", "C15-R4")
 	prop("C03", "C15-R4")
 }
+
+func init() { prop("C04", "C04-R7") }
